@@ -577,3 +577,8 @@ mod tests {
         assert_eq!(AesSivCmac512::try_from(slice).unwrap().key_bytes(), slice);
     }
 }
+
+// verification hook (guard: cfg(kani)); contract harnesses live outside the repository
+#[cfg(kani)]
+#[path = "/verif/kani/ntp_proto/packet/crypto.rs"]
+mod verif;
